@@ -17,6 +17,38 @@ def valid(inp):
         return False
 
 
+def valid_member(inp):
+    """first round: exactly one node answers with our identifier; one reply per node in every round; distinct non-empty backends and identifiers"""
+    try:
+        nn, me = inp["nodes"], inp["own_id"]
+        if nn < 1 or not inp["hist"] or not me:
+            return False
+        if len(set(inp["backends"])) != len(inp["backends"]) or any(b == "" for b in inp["backends"]):
+            return False
+        for h in inp["hist"]:
+            if len(h) != nn:
+                return False
+            for r in h:
+                if r["kind"] not in ("none", "garbage", "pong") or (r["kind"] == "pong" and not r.get("ident")):
+                    return False
+        first = [i for i, r in enumerate(inp["hist"][0]) if r["kind"] == "pong" and r["ident"] == me]
+        if len(first) != 1:
+            return False
+        # a failing ping waits for the heartbeat timeout, and in the first round it must not be our own node
+        if sum(1 for h in inp["hist"] for r in h if r["kind"] == "none") > 12:
+            return False
+        # identifiers of two different nodes never coincide
+        owner = {}
+        for h in inp["hist"]:
+            for i, r in enumerate(h):
+                if r["kind"] == "pong":
+                    if owner.setdefault(r["ident"], i) != i:
+                        return False
+        return True
+    except (KeyError, TypeError):
+        return False
+
+
 def classify_cluster(inp):
     """a request that needs a backend held by another node takes the distributed code path
     (was the class of known finding D22 until the 14 fix: commits 4ad91fb..add3332; kept for the histogram)"""
@@ -51,7 +83,7 @@ def valid_cluster(inp):
 PROP = Prop(
     pid="C18",
     coq_props="theories/C18/Props.v",
-    coq_run=["theories/C18/Run.v", "theories/QE/Run.v", "theories/C18/RunQ.v"],
+    coq_run=["theories/C18/Run.v", "theories/C18/RunM.v", "theories/QE/Run.v", "theories/C18/RunQ.v"],
     streams=[Stream("assign", "c18assign", n_quick=150, n_thorough=3000, valid=valid,
                     what="Nodes.redistribute/updateBackends/IsOurBackend on real Nodes and Peer objects"),
              Stream("cluster", "qe", n_quick=200, n_thorough=2000, shards_thorough=4, valid=valid_cluster,
@@ -62,7 +94,9 @@ PROP = Prop(
         "Coq 8.16.1 kernel, vm_compute (cases evaluation and the non-vacuity Example); no native_compute",
         "axioms: none (Print Assumptions: closed under the global context, captured per run)",
         "correspondence harness (Go, harness/inpkg/c18_assign.go) and the cases-file emitter",
-        "modelled, not verified: ping/heartbeat timing and HTTP transport between nodes (membership sets are driven), sub-peers of federated backends",
+        "membership model C18/Member.v (checkNodeAvailability/sendPing/getOnlineNodes): theorems proved, its stream `c18member` (harness/inpkg/c18_member.go) is NOT registered yet - the harness hung in its first run; until it is, the membership theorems are tied to nodes.go by reading only",
+        "modelled, not verified: heartbeat timing (a ping that fails or exceeds the heartbeat timeout is the model's NoReply; the loop interval is not modelled), "
+        "the first ping round is assumed to identify this node (nodes.go panics otherwise), sub-peers of federated backends",
     ],
     assumptions=[
         "all nodes see the same membership set (each computes the same pure function of it)",
